@@ -23,6 +23,23 @@ def fr(t):
     return PREFIX + t.encode() + SUFFIX
 
 
+def frame_bytes(k, t):
+    if k == "ok":
+        return fr(t)
+    if k == "okws":                       # insignificant whitespace in front of the document
+        return b"\n " + fr(t)
+    if k == "badutf8":                    # not valid UTF-8: must be a decode error
+        return PREFIX + t.encode() + b"\xff" + SUFFIX
+    return OTHER[k]
+
+
+def note_off(k):
+    return len(PREFIX) + (2 if k == "okws" else 0)
+
+
+EXPECT = {"ok": "ok", "okws": "ok", "merr": "merr", "bad": "err:json", "badutf8": "err:json"}
+
+
 OTHER = {
     "merr": b'{"error":"org.example.Busy"}',
     "vs": b'{"error":"org.varlink.service.MethodNotFound","parameters":{"method":"a.B"}}',
@@ -35,10 +52,13 @@ def gen_cases(ck, limit, step):
     cases = []
     quick = ck.tier == "quick"
 
-    def add(frames, events, tag, pre=0):
-        """frames: list of (kind, text) in wire order; the first `pre` are received before the chain."""
-        cases.append({"id": len(cases), "n": len(frames) - pre, "pre": pre, "frames": frames, "events": events,
-                      "tag": tag})
+    def add(frames, events, tag, pre=0, take=None):
+        """frames: list of (kind, text) in wire order; the first `pre` are received before the chain;
+        take: stop after that many stream items and drop the unfinished stream."""
+        c = {"id": len(cases), "n": len(frames) - pre, "pre": pre, "frames": frames, "events": events, "tag": tag}
+        if take is not None:
+            c["take"] = take
+        cases.append(c)
 
     def chunk(stream, mode):
         if mode == "one_read":
@@ -53,7 +73,7 @@ def gen_cases(ck, limit, step):
         return fg.events_of(rng, fg.chunks_from_cuts(stream, cuts), pend_prob=rng.choice([0, 0.3]))
 
     def wire(frames):
-        return fg.wire([fr(t) if k == "ok" else OTHER[k] for k, t in frames])
+        return fg.wire([frame_bytes(k, t) for k, t in frames])
     corpus = os.path.join(VERIF, "corpus", "c11.jsonl")
     if os.path.exists(corpus):
         for line in open(corpus):
@@ -94,6 +114,29 @@ def gen_cases(ck, limit, step):
         frames = [("ok", note(rng, rng.randrange(1, 40))) for _ in range(n)]
         frames.insert(rng.randrange(1, n + 1), (rng.choice(["merr", "vs", "bad"]), ""))
         add(frames, chunk(wire(frames), rng.choice(["one_read", "one_read", "two_bursts"])), "non_success_in_burst")
+    # (c2) replies with insignificant leading whitespace; replies that are not valid UTF-8
+    for i in range(60 if quick else 600):
+        n = rng.randrange(2, 6)
+        frames = [(rng.choice(["ok", "okws", "okws"]), note(rng, rng.randrange(1, 40))) for _ in range(n)]
+        if rng.random() < 0.4:
+            j = rng.randrange(0, n)
+            frames[j] = ("badutf8", frames[j][1])
+            if rng.random() < 0.5 and j + 1 < n:
+                frames[-1] = ("badutf8", frames[-1][1])
+        stream = wire(frames)
+        mode = rng.choice(["one_read", "one_read", "two_bursts", "per_reply"])
+        ev = chunk(stream, mode)
+        if mode == "one_read" and rng.random() < 0.5:
+            # more data arrives later on the transport (a later exchange)
+            ev = ev[:-1] + [["p"], ["d", fg.wire([fr("later")]).hex()], ["e"]]
+            frames = frames + [("ok", "later")]
+        add(frames, ev, "leading_whitespace_or_bad_utf8")
+    # (c3) the caller stops early and drops the unfinished stream while holding earlier items
+    for i in range(60 if quick else 600):
+        n = rng.randrange(2, 6)
+        frames = [("ok", note(rng, rng.randrange(1, 40))) for _ in range(n)]
+        add(frames, chunk(wire(frames), rng.choice(["one_read", "one_read", "two_bursts"])), "drop_unfinished_stream",
+            take=rng.randrange(1, n))
     # (d) a connection whose buffer was grown by an earlier large reply, then a chain of short replies
     for i in range(60 if quick else 600):
         pre = [("ok", note(rng, rng.choice([300, 700, 1100, 1500, 2500])))]
@@ -118,11 +161,12 @@ def render(c, r, step, limit):
     for s in r["steps"]:
         flags.append("true" if s["data_reads"] > prev else "false")
         prev = s["data_reads"]
-    mask = ["true" if (k == "ok" and i >= c["pre"]) else "false" for i, (k, t) in enumerate(c["frames"])]
-    notes = [coq_bytes(t.encode()) if k == "ok" else "[]" for k, t in c["frames"]]
-    return ("{| bc_step := %d; bc_limit := %d; bc_events := %s; bc_n := %d%%nat; bc_off := %d%%nat; "
+    mask = ["true" if (k in ("ok", "okws") and i >= c["pre"]) else "false" for i, (k, t) in enumerate(c["frames"])]
+    notes = [coq_bytes(t.encode()) if k in ("ok", "okws") else "[]" for k, t in c["frames"]]
+    offs = ["%d%%nat" % note_off(k) for k, t in c["frames"]]
+    return ("{| bc_step := %d; bc_limit := %d; bc_events := %s; bc_n := %d%%nat; bc_offs := %s; "
             "bc_suf := %d%%nat; bc_notes := %s; bc_mask := %s; bc_views := %s; bc_reads := %s |}") % (
-        step, limit, fg.coq_events(c["events"]), len(c["frames"]), len(PREFIX), len(SUFFIX),
+        step, limit, fg.coq_events(c["events"]), len(c["frames"]), coq_list(offs), len(SUFFIX),
         coq_list(notes), coq_list(mask), coq_list(views), coq_list(flags))
 
 
@@ -150,6 +194,23 @@ def main():
             ck.violation("reply stream panicked/crashed while items were held", {"case": c, "impl": r},
                          tag="panic%d" % c["id"])
             continue
+        # every item must be classified as its frame prescribes (a reply that is not valid UTF-8 or
+        # of the wrong shape is a decode error and ends the stream; nothing is yielded for it)
+        exp = []
+        for k, t in c["frames"][: len(r["steps"])]:
+            exp.append("vs" if k == "vs" else EXPECT[k])
+        got = ["vs" if s_["res"].startswith("vs:") else s_["res"] for s_ in r["steps"]]
+        if got != exp and "take" not in c and not r.get("stuck"):
+            ck.violation("stream items were not classified as the reply frames prescribe: got %s, frames %s" % (
+                got, [k for k, t in c["frames"]]), {"case": c, "impl": r}, tag="r%d" % c["id"])
+            continue
+        # dropping an unfinished stream is not a transport read: what is held must stay as it was
+        if r.get("after_drop") is not None and r["steps"]:
+            if r["after_drop"] != r["steps"][-1]["views"]:
+                ck.violation("held reply strings changed when the unfinished stream was dropped: %s -> %s" % (
+                    [bytes.fromhex(v)[:24] for v in r["steps"][-1]["views"]],
+                    [bytes.fromhex(v)[:24] for v in r["after_drop"]]), {"case": c, "impl": r}, tag="d%d" % c["id"])
+                continue
         items.append((c, r))
     try:
         bad = ck.coq_eval("cases", HEADER, items, lambda it: render(it[0], it[1], step, limit))
@@ -177,7 +238,7 @@ def main():
             continue
         shown += 1
         term = render(c, r, step, limit)
-        model = ck.coq_show(HEADER, "(map (fun x => (snd (fst x), map (note_of (%s)) (snd x))) (bmodel (%s)))" % (term, term))
+        model = ck.coq_show(HEADER, "(map (fun x => (snd (fst x), notes_of (bc_suf (%s)) (bc_offs (%s)) (snd x))) (bmodel (%s)))" % (term, term, term))
         if code & 2:
             ck.violation("a held reply string changed although no later item needed a transport read",
                          {"case": c, "impl": r, "model": model}, tag="c%d" % c["id"])
